@@ -51,6 +51,14 @@ def gen(rng, tier, i):
                 batches[-1]['ppi_time'] = rng.choice([0, 0, 2])
                 batches[-1]['time'] = rng.choice([5, 12.5, 40, 1000])
                 batches.append({'stim': batches[-1]['stim'], 'keep_s': True, 'seed': batches[-1]['seed'], 'custom': []})
+    for b in batches:
+        # the capture time as a user passes it: float32, Python float, float64 - also a float64 that is NOT a float32 value and
+        # rounds to a transition time (np.linspace steps, clock periods like 0.7), placed by 'time_sel' on a transition of the run
+        if rng.random() < 0.35 and b.get('time') is None:
+            b['time_sel'] = [rng.randrange(64), rng.randrange(8), rng.randrange(8), rng.choice([0, 0, 0, 0.25, -1])]
+            b['time_type'] = rng.choice(['f32', 'py', 'f64', 'f64_above', 'f64_above', 'f64_below'])
+        elif b.get('time') is not None:
+            b['time_type'] = rng.choice(['f32', 'py', 'f64', 'int' if float(b['time']).is_integer() else 'py'])
     case = {'script': script, 'sims': sims, 'delays': wavegen.gen_delays(rng, n_sets=n_sets), 'caps': wavegen.gen_caps(rng, p_fault=0.3),
             'batches': batches, 'actrl': wavegen.gen_actrl(rng, p=0.3)}
     base = {'c_reuse': rng.random() < 0.3, 'strip_forks': rng.random() < 0.3}
@@ -153,6 +161,15 @@ def execute(case):
     if multi: base['simctl'] = {'mode': 0}; base['seed'] = 0
     hA, A = wsim.run_config(built, case, base, res, monitors=())
     meta = hA.meta
+    if any(b.get('time_sel') is not None for b in case['batches']):
+        # a capture time placed on a transition of the base run is the SAME time in every other run of the case
+        fb = []
+        for b, o in zip(case['batches'], A):
+            if b.get('time_sel') is not None:
+                b = {k_: v for k_, v in b.items() if k_ != 'time_sel'}
+                b['time'] = o['time']
+            fb.append(b)
+        case = dict(case, batches=fb)
     widths = [b - a for a, b in zip(meta.level_starts, meta.level_stops)]
     res.log.add('base', [wsim.crc(o['s'][3:8]) for o in A])
     if any(b.get('keep_s') for b in case['batches']): res.probe('ppo2ppi_then_keep')
@@ -193,6 +210,14 @@ def execute(case):
                 if not np.array_equal(a['abuf'], b['abuf']):
                     res.violate('gpu-path-changes-abuf', f'batch {bno}: abuf CPU {a["abuf"].tolist()} vs GPU {b["abuf"].tolist()}'); return res
             if not base['c_reuse'] and not cmp_memory(res, 'gpu-path-changes-memory', 'CPU vs GPU path', hA, A, h2, o2, ident): return res
+            if multi:
+                # several delay datasets in the default mode (2: a pseudo-random dataset per operation and lane, derived from the
+                # c_prop seed and the per-lane seed): the pick is a pure function of these, so both code paths must agree
+                cfgM = {k_: v for k_, v in base.items() if k_ not in ('simctl', 'seed')}
+                h3, o3 = wsim.run_config(built, case, cfgM, res, monitors=())
+                h4, o4 = wsim.run_config(built, case, dict(cfgM, cls='gpu', sched=p['sched'], block=p['block']), res, monitors=())
+                res.probe('gpu_pair_in_mode2')
+                if not cmp_ports(res, 'gpu-path-changes-result', f'CPU vs GPU path, random dataset per operation (mode 2) ({p["sched"].get("mode")}/{p["sched"].get("kind", "")})', o3, o4, ident): return res
         elif kind == 'lanes':
             rel = [(l, t) for l, t in enumerate(p['lane_map']) if l < n and t is not None and t < p['sims2']]     # (a shrunk case may have fewer lanes than the map)
             cfgB = dict(base, cls=p['cls'], sims=p['sims2'], lane_map=p['lane_map'])
